@@ -297,7 +297,7 @@ PROPS["C09"] = {
             "search and the event dispatch must report an error. Non-trivial = an ancestor chain of depth >= 2, a changed parent "
             "list followed by inherited observations, or a loop. Distinct = distinct canonical JSON.",
     "assumptions": COMMON_ASSUMPTIONS + [
-        "a location reached through two different parents (a diamond) is unspecified (counted once or twice) and skipped",
+        "whether the facts and rules of a location reached through two different parents (a diamond) count once or twice is unspecified: an observation is skipped only if such a location contributes to it (has a matching fact or rule, or unspecified ids); otherwise the location is counted once and the comparison is made",
         "in the sys.System mode the operations are issued on the *core.Location that System.GetLocation hands out (the System is the provider and cache); the System's own request wrappers are C17's and C18's subject",
     ],
     "parts": [
